@@ -245,6 +245,16 @@ class PathEval:
                 if cond[0] == "const" and isinstance(cond[2], int):
                     hit = [s for s in succs if s[0] == cond[2]] or [succs[-1]]
                     succs = hit[:1]
+                elif (cond[0] == "discr" and cond[1][0] == "call" and cond[1][1].endswith("try_trait::Try::branch") and cond[1][2]
+                      and cond[1][2][0][0] == "call" and cond[1][2][0][1].endswith("try_trait::FromResidual::from_residual")):
+                    # `x?` on a value that is itself the `return Err/None` of an inner `?` (a helper that was inlined):
+                    # from_residual(..) is the Break side for Option and Result alike, so branch() of it breaks again
+                    hit = [s for s in succs if s[0] == 1] or [succs[-1]]
+                    succs = hit[:1]
+                    path.conds.append((cond, 1, vals))
+                    for v, nb in succs:
+                        stack.append((nb, env, path, seen))
+                    continue
                 else:
                     # path consistency: a term already decided earlier on this path keeps its value
                     # (e.g. `if let Ok(x) = r` followed by the drop-elaboration switch on the same discriminant)
